@@ -35,12 +35,14 @@ type RxMsg struct {
 	Type string
 }
 
+//go:norace
 func NewPeer(w *World, c *Conn, name string) *Peer {
 	p := &Peer{w: w, C: c, Name: name}
 	c.SetSink(p.onBytes)
 	return p
 }
 
+//go:norace
 func (p *Peer) onBytes(b []byte) {
 	if b == nil {
 		if !p.EOF {
@@ -57,9 +59,13 @@ func (p *Peer) onBytes(b []byte) {
 }
 
 // Stream is everything received so far.
+//
+//go:norace
 func (p *Peer) Stream() []byte { return p.buf }
 
 // Msgs parses everything received so far into complete messages.
+//
+//go:norace
 func (p *Peer) Msgs() []RxMsg {
 	msgs, _ := Split(p.buf)
 	out := make([]RxMsg, 0, len(msgs))
@@ -80,9 +86,13 @@ func (p *Peer) Msgs() []RxMsg {
 }
 
 // Rest is the trailing bytes that do not form a complete message yet.
+//
+//go:norace
 func (p *Peer) Rest() []byte { _, r := Split(p.buf); return r }
 
 // Take returns the complete messages received since the previous Take.
+//
+//go:norace
 func (p *Peer) Take() []RxMsg {
 	all := p.Msgs()
 	out := all[p.taken:]
@@ -91,11 +101,15 @@ func (p *Peer) Take() []RxMsg {
 }
 
 // Send injects one message (or arbitrary bytes) towards the library as one segment.
+//
+//go:norace
 func (p *Peer) Send(b []byte) {
 	p.SendShaped(b, nil)
 }
 
 // SendShaped injects bytes cut into the given segments (nil: one segment, no delay).
+//
+//go:norace
 func (p *Peer) SendShaped(b []byte, shape func([]byte) []seg) {
 	p.sent++
 	p.w.Logf("tx", "%s %s", p.Name, Pretty(b))
@@ -111,6 +125,8 @@ func (p *Peer) SendShaped(b []byte, shape func([]byte) []seg) {
 // cutPoints chooses where to cut b. mode: 0 whole, 1 every byte, 2 random cuts,
 // 3 cuts biased to the framing-sensitive places (around \x0110=, inside the
 // checksum digits, just before the final SOH), 4 = 3 plus random.
+//
+//go:norace
 func cutPoints(t *Tape, b []byte, mode int) []int {
 	n := len(b)
 	if n <= 1 {
@@ -160,6 +176,8 @@ func cutPoints(t *Tape, b []byte, mode int) []int {
 
 // ShapeWith returns a shaping function: cut mode as in cutPoints, and a maximum
 // per-segment delay (0: all segments readable at once, i.e. coalesced).
+//
+//go:norace
 func (w *World) ShapeWith(t *Tape, mode int, maxDelay time.Duration) func([]byte) []seg {
 	return func(b []byte) []seg {
 		cuts := cutPoints(t, b, mode)
